@@ -9,7 +9,7 @@ pub struct Os { pub image: BTreeMap<u16, Option<u16>>, pub labels: BTreeMap<Stri
 pub fn os() -> &'static Os {
     static OS: OnceLock<Os> = OnceLock::new();
     OS.get_or_init(|| {
-        let src = std::fs::read_to_string("/repo/src/os.asm").expect("os.asm");
+        let src = std::fs::read_to_string(std::env::var("LC3MC_OS_ASM").unwrap_or_else(|_| "/repo/src/os.asm".into())).expect("os.asm");
         let obj = assemble_debug(parse_ast(&src).expect("os parses"), &src).expect("os assembles");
         let labels = obj.symbol_table().unwrap().label_iter().map(|(n, a, _)| (n.to_string(), a)).collect();
         Os { image: obj.addr_iter().collect(), labels }
